@@ -31,6 +31,8 @@ func TestMain(m *testing.M) {
 		entry = func(t *testing.T) { code = cmdWorker(t, args[1:]) }
 	case "replay":
 		entry = func(t *testing.T) { code = cmdReplay(t, args[1:]) }
+	case "try":
+		entry = func(t *testing.T) { code = cmdTry(t, args[1:]) }
 	case "digest":
 		entry = func(t *testing.T) { code = cmdDigest(t, args[1:]) }
 	case "minimize":
@@ -45,15 +47,26 @@ func TestMain(m *testing.M) {
 		fmt.Fprintf(os.Stderr, "dsim: unknown command %q\n", args[0])
 		os.Exit(2)
 	}
-	if rc := m.Run(); rc != 0 && code == 0 {
+	// the ANTLR lexer's console listener prints "token recognition error" lines: not ours to judge, keep the logs clean
+	if devnull, err := os.OpenFile(os.DevNull, os.O_WRONLY, 0); err == nil {
+		os.Stderr = devnull
+	}
+	entered = false
+	rc := m.Run()
+	if !entered || (rc != 0 && !finished) {
+		// the entry function did not run to completion: harness trouble, never a verdict
 		code = 2
 	}
 	os.Exit(code)
 }
 
+var entered, finished bool
+
 func TestEntry(t *testing.T) {
 	if entry != nil {
+		entered = true
 		entry(t)
+		finished = true // (a -race binary also fails the test when a race was reported; the reports are read from the race log)
 	}
 }
 
